@@ -256,12 +256,43 @@ def item_c08_npy_protocol(repo, out):
     out.append('Definition c08_final_suffix : string := %s.' % coq_string(final_suffix))
     out.append('Definition c08_read_suffix : string := %s.' % coq_string(read_suffix))
     out.append('Definition c08_put_steps : list string := %s.' % coq_strings(steps))
-    # _write_chunk: plain path is `return np.save(filename, chunk, allow_pickle=False)`; direct path ends with
-    # os.write(fd, aligned); os.ftruncate(fd, size) on a file opened O_CREAT|O_TRUNC
+    # _write_chunk(filename, chunk, direct_write): how the plain branch writes, and whether the direct branch
+    # checks the byte count returned by os.write before padding/cutting the file with ftruncate
     wc = _func(tree, '_write_chunk', NPY)
-    calls = [ast.unparse(n.func) for n in ast.walk(wc) if isinstance(n, ast.Call)]
-    seq = [c for c in calls if c in ('np.save', 'os.open', 'os.write', 'os.ftruncate', 'os.close')]
-    out.append('Definition c08_write_calls : list string := %s.' % coq_strings(seq))
+    plain = [n for n in wc.body if isinstance(n, ast.If) and ast.unparse(n.test) == 'not direct_write']
+    if len(plain) != 1 or plain[0].orelse:
+        raise TranslateError('%s: _write_chunk: `if not direct_write:` branch not found' % NPY)
+    pcalls = [ast.unparse(n.func) for st in plain[0].body for n in ast.walk(st) if isinstance(n, ast.Call)]
+    if 'np.save' in pcalls:
+        writer = 'np.save'
+    elif 'open' in pcalls and 'f.write' in pcalls and not [c for c in pcalls if c.endswith('tofile')]:
+        withs = [st for st in plain[0].body if isinstance(st, ast.With)]
+        if not (len(withs) == 1 and ast.unparse(withs[0].items[0].context_expr).startswith('open(filename')):
+            raise TranslateError('%s: _write_chunk: plain branch does not write inside `with open(filename, ...)`' % NPY)
+        writer = 'file.write'
+    else:
+        raise TranslateError('%s: _write_chunk: plain branch writer not recognised (%s)' % (NPY, pcalls))
+    if not isinstance(plain[0].body[-1], ast.Return):
+        raise TranslateError('%s: _write_chunk: plain branch falls through into the direct branch' % NPY)
+    out.append('Definition c08_plain_writer : string := %s.' % coq_string(writer))
+    direct = wc.body[wc.body.index(plain[0]) + 1:]
+    dcalls = [ast.unparse(n.func) for st in direct for n in ast.walk(st) if isinstance(n, ast.Call)]
+    seq = [c for c in dcalls if c in ('os.open', 'os.write', 'os.ftruncate', 'os.rename', 'os.unlink')]
+    out.append('Definition c08_direct_calls : list string := %s.' % coq_strings(seq))
+    checked = False
+    for n in ast.walk(wc):
+        body = getattr(n, 'body', None)
+        if not isinstance(body, list):
+            continue
+        for a, b in zip(body, body[1:]):
+            if (isinstance(a, ast.Assign) and isinstance(a.value, ast.Call) and ast.unparse(a.value.func) == 'os.write'
+                    and isinstance(a.targets[0], ast.Name) and isinstance(b, ast.If) and not b.orelse
+                    and ast.unparse(b.test) in ('%s < size' % a.targets[0].id, '%s != size' % a.targets[0].id,
+                                                 'size > %s' % a.targets[0].id)
+                    and len(b.body) == 1 and isinstance(b.body[0], ast.Raise)
+                    and isinstance(b.body[0].exc, ast.Call) and ast.unparse(b.body[0].exc.func) in ('OSError', 'IOError')):
+                checked = True
+    out.append('Definition c08_direct_short_write_checked : bool := %s.' % ('true' if checked else 'false'))
 
 
 def item_c08_checks(repo, out):
